@@ -7,7 +7,7 @@
 #
 import re
 
-from ural.patterns import URL_IN_TEXT_RE
+from ural.patterns import URL_IN_TEXT_RE, URL_WITH_PROTOCOL_RE
 
 IRRELEVANT_PUNCTUATION = set("!?#\"$%&'()*+,-.:;<=>@[\\]^_`{|}~…’‘`‛«»„‟“”-‐‒–—―−‑⁃,،、")
 
@@ -24,6 +24,17 @@ def strip_trailing_punctuation(url):
 
     if i != stop:
         url = url[: i + 1]
+
+    return url
+
+
+def clean_match(url):
+    # NOTE: the in-text pattern lets typographic punctuation and unicode spaces
+    # into the tld, so what remains after trimming must be validated again
+    url = strip_trailing_punctuation(url.strip()).strip()
+
+    if not URL_WITH_PROTOCOL_RE.match(url):
+        return None
 
     return url
 
@@ -51,8 +62,14 @@ def urls_from_text(string):
                 half_match = URL_IN_TEXT_RE.match(half)
 
                 if half_match is not None:
-                    yield strip_trailing_punctuation(half_match.group(0))
+                    cleaned = clean_match(half_match.group(0))
+
+                    if cleaned is not None:
+                        yield cleaned
 
             continue
 
-        yield strip_trailing_punctuation(url)
+        cleaned = clean_match(url)
+
+        if cleaned is not None:
+            yield cleaned
